@@ -348,6 +348,14 @@ fn ops_for(m: &Model, max_nest: usize, quick: bool) -> Vec<Op> {
             }
         }
     }
+    // two chunks read one after the other, the second opened first and then the first opened inside it
+    // (when the chunks hold the same bits the new input equals the old one in content, not in position)
+    if m.levels.len() + 2 <= max_nest + 1 && rem >= 16 {
+        let mut m2 = moved(16);
+        m2.levels.push(Level { bits: rest[8..16].to_vec(), rel: 0, base: usize::MAX });
+        m2.levels.push(Level { bits: rest[..8].to_vec(), rel: 0, base: usize::MAX });
+        ops.push(Op { name: "open-two".into(), src: "8 bits 8 bits open-bitstr open-bitstr".into(), exp: Expect::Ok { push: vec![], rel: 0 }, next: Some(m2) });
+    }
     ops.push(Op { name: "open-bad".into(), src: "5 open-bitstr".into(), exp: Expect::Fail, next: None });
     if m.levels.len() > 1 {
         let mut m2 = m.clone();
@@ -521,6 +529,7 @@ fn make_inputs(quick: bool) -> Vec<(&'static str, Bitstr)> {
         ("wide: 21 bytes", wide_parent.substr(0, 168).unwrap()),
         ("empty", Bitstr::new()),
         ("3 bytes with NUL", Bitstr::from(vec![0x41u8, 0x00, 0xEE])),
+        ("3 equal bytes", Bitstr::from(vec![0xAAu8, 0xAA, 0xAA])),
         ("19 bits", Bitstr::from(vec![0x12u8, 0x34, 0x56]).peek(19).unwrap()),
         ("24-bit slice at bit 3", parent.substr(3, 27).unwrap()),
         ("5 bytes (floats)", Bitstr::from(vec![0x3f, 0x80, 0, 0, 0x40])),
@@ -620,7 +629,7 @@ pub fn run(cfg: &Cfg) -> i32 {
     for c in caps {
         ev.cap(c);
     }
-    for need in ["bits:ok", "bits:fail", "bytes:fail", "uint:ok", "int:fail", "magic:ok", "magic:fail", "seek:ok", "seek:fail", "find:ok", "nulbytestr:ok", "cstr:ok", "close:ok", "close-empty:fail", "open-slice:ok", "float:ok", "fN:ok"] {
+    for need in ["bits:ok", "bits:fail", "bytes:fail", "uint:ok", "int:fail", "magic:ok", "magic:fail", "seek:ok", "seek:fail", "find:ok", "nulbytestr:ok", "cstr:ok", "close:ok", "close-empty:fail", "open-slice:ok", "open-two:ok", "float:ok", "fN:ok"] {
         if fam.get(need).copied().unwrap_or(0) == 0 && !rep.has_unknown() {
             vacuous(&format!("vacuous: no transition of class {}", need));
         }
